@@ -8,6 +8,7 @@ import (
 	"bytes"
 	"encoding/json"
 	"fmt"
+	"sort"
 	"strconv"
 	"strings"
 )
@@ -428,6 +429,8 @@ func (s *TypedMapType) IsValidExpression(exp Exp, pipeline *Pipeline, ast *Ast) 
 				}
 			}
 		}
+		// The map was iterated in random order; report in a stable one.
+		sortErrorsByMessage(errs)
 		return errs.If()
 	default:
 		return &IncompatibleTypeError{
@@ -565,5 +568,15 @@ func (err *IncompatibleTypeError) writeTo(w stringWriter) {
 		} else {
 			mustWriteString(w, e.Error())
 		}
+	}
+}
+
+// sortErrorsByMessage orders a list of errors which were collected while
+// ranging over a map, so that the combined message is deterministic.
+func sortErrorsByMessage(errs ErrorList) {
+	if len(errs) > 1 {
+		sort.SliceStable(errs, func(i, j int) bool {
+			return errs[i].Error() < errs[j].Error()
+		})
 	}
 }
